@@ -262,6 +262,9 @@ class ParametricTransform:
             raise TypeError(
                 f"{type(self).__name__}.link() 'other' must be of the same type, got {type(other).__name__}"
             )
+        if "params" in self._parameters:
+            # Module.__setattr__ refuses to replace a registered parameter by a module
+            delattr(self, "params")
         self.params = other
         if not hasattr(self, "p"):
             if other.params is None:
